@@ -88,6 +88,8 @@ type c02Variant struct {
 	// Ed25519 CA key), "foreign" (a key of some other server); nil = not configured
 	extra []string
 	light bool // the published-keys family: a reduced set of requests (every key type, few names)
+	// the failing-template family: these names only, three requests each (ssh on two key types, x509)
+	names []string
 }
 
 // the model's names of the keys (Model/Seal.v): 1 main, 2 Ed25519, 9 foreign
@@ -145,12 +147,42 @@ var c02TemplatesBad = []sshExtension{
 	{Key: "subst", Value: "$(id)"},
 }
 
+// templates the shell expander rejects: in the NAME of an extension (command substitution with the user
+// name as argument), for everybody
+var c02TemplatesBadKey = []sshExtension{
+	{Key: "ok-${USERNAME}", Value: "v"},
+	{Key: "uid-$(id -u ${USERNAME})", Value: "x"},
+	{Key: "after", Value: "${USERNAME}"},
+}
+
+// ... only for SOME user names: an arithmetic expansion that divides by zero for names of five bytes (value
+// position) and one that divides by zero for names whose only digit is a 1 (name position); all other names
+// get all four extensions
+var c02TemplatesNameDependent = []sshExtension{
+	{Key: "who", Value: "${USERNAME}"},
+	{Key: "quota", Value: "$(( 100 / (${#USERNAME} - 5) ))"},
+	{Key: "slot-$(( 10 / (1${USERNAME//[^0-9]/} - 11) ))", Value: "x"},
+	{Key: "last", Value: "${USERNAME:0:1}"},
+}
+
+// ... unterminated forms: a parameter expansion without closing brace in a value, a replacement without end in
+// a name, an arithmetic expansion without operand
+var c02TemplatesUnterminated = []sshExtension{
+	{Key: "who", Value: "${USERNAME}"},
+	{Key: "broken-value", Value: "${USERNAME"},
+	{Key: "${USERNAME/", Value: "broken-name"},
+	{Key: "sum", Value: "$(( 1 +"},
+}
+
 func c02Variants() []c02Variant {
 	return []c02Variant{
 		{name: "plain"},
 		{name: "templates+realm+groups", templates: c02Templates1, realm: "EXAMPLE.COM", groups: true, prepend: "km-"},
 		{name: "ed25519-ca+templates", templates: c02Templates2, edCA: true, groups: true, noNorm: true},
 		{name: "failing-template", templates: c02TemplatesBad},
+		{name: "failing-template:name-position", templates: c02TemplatesBadKey, names: []string{"alice", "bob"}},
+		{name: "failing-template:name-dependent", templates: c02TemplatesNameDependent, names: []string{"alice", "bob", "dev1", "x", "carol.o-neil", "1", "abcde"}},
+		{name: "failing-template:unterminated", templates: c02TemplatesUnterminated, names: []string{"alice", "bob"}},
 		// the published-keys dimension: what keymaster_public_keys_filename already lists x Ed25519 CA
 		{name: "ed25519-ca, foreign keys listed", edCA: true, extra: []string{"foreign", "foreign"}, light: true},
 		{name: "ed25519-ca, own main key listed", edCA: true, extra: []string{"self"}, light: true},
@@ -564,7 +596,7 @@ func c02Mapper(user string) func(string) string {
 }
 
 func TestVerif_C02(t *testing.T) {
-	res := newVerifResult("9 server configurations (plain; extension templates + Kerberos realm + group database with prefix; Ed25519 CA + templates + normalisation disabled; a template whose expansion fails; published-keys family: keymaster_public_keys_filename listing foreign keys / own main key / own Ed25519 key / both twice after a foreign key with an Ed25519 CA, own main key without one - reduced request set) x user names (case variants, dots, dashes, plus, UTF-8, 1..255 bytes, seeded random) x 7 key types/sizes x {ssh, x509, x509-kubernetes} x addGroups; requests for other names (case variants, prefixes, other users); logins with case variants; non-trivial = a certificate was issued; distinct by (configuration, name, key, type, groups flag, outcome)")
+	res := newVerifResult("12 server configurations (plain; extension templates + Kerberos realm + group database with prefix; Ed25519 CA + templates + normalisation disabled; templates whose expansion fails: command substitution in a value / in a name, arithmetic errors that depend on the length or the characters of the user name, unterminated forms; published-keys family: keymaster_public_keys_filename listing foreign keys / own main key / own Ed25519 key / both twice after a foreign key with an Ed25519 CA, own main key without one - reduced request set) x user names (case variants, dots, dashes, plus, UTF-8 precomposed / decomposed, trailing dot, 1 / 63 / 64 / 65 / 255 bytes, names sharing a 64-byte prefix, seeded random) x 7 key types/sizes x {ssh, x509, x509-kubernetes} x addGroups; requests for other names (case variants, prefixes, other users); logins with case variants; non-trivial = a certificate was issued; distinct by (configuration, name, key, type, groups flag, outcome)")
 	rng := mrand.New(mrand.NewSource(verifSeed()))
 	keys := c02Keys()
 	_, edPriv, err := ed25519.GenerateKey(rand.Reader)
@@ -574,7 +606,11 @@ func TestVerif_C02(t *testing.T) {
 	edPEM := pem.EncodeToMemory(&pem.Block{Type: "PRIVATE KEY", Bytes: edDer})
 	variants := c02Variants()
 	names := []string{"alice", "bob", "a.b-c+d_e", "carol.o-neil", "x", "dave+ssh", "Alice", "BOB", "jürgen", "a b", "user@example.com",
-		strings.Repeat("n", 64), strings.Repeat("long.name-", 25) + "12345"}
+		strings.Repeat("n", 64), strings.Repeat("long.name-", 25) + "12345",
+		// the user-name family: lengths around 64, names sharing a long prefix (one the 64-byte prefix of the others),
+		// names differing only in a trailing dot / in Unicode normalisation (precomposed above, decomposed here)
+		strings.Repeat("m", 63), strings.Repeat("n", 65), strings.Repeat("n", 64) + "a", strings.Repeat("n", 64) + "b",
+		strings.Repeat("svc-deploy-", 6) + "staging", strings.Repeat("svc-deploy-", 6) + "prod", "alice.", "ju\u0308rgen"}
 	nRandom := 4
 	if verifThorough() {
 		nRandom = 60
@@ -666,6 +702,14 @@ func TestVerif_C02(t *testing.T) {
 					k, err1 := shell.Expand(e.Key, c02Mapper(cs.user))
 					val, err2 := shell.Expand(e.Value, c02Mapper(cs.user))
 					if err1 != nil || err2 != nil {
+						// "plus the operator-configured ones": a configured extension that cannot be produced for this
+						// user means the set cannot be the required one - nothing may be issued
+						pos := "value"
+						if err1 != nil {
+							pos = "name"
+						}
+						hit("extensions:unexpandable-template:"+pos, "SSH extensions are exactly the five standard ones plus the configured ones with the user name substituted: when a configured template cannot be expanded for the user no certificate may be issued",
+							fmt.Sprintf("%s: user %q: template %q: %q does not expand (%v %v), yet an SSH certificate with extensions %q was issued", v.name, cs.user, e.Key, e.Value, err1, err2, o.exts), d, ob)
 						continue
 					}
 					custom[k] = val
@@ -687,8 +731,29 @@ func TestVerif_C02(t *testing.T) {
 				hit("undecodable:"+shape, "the certificate decodes", o.parseErr, d, ob)
 			}
 		}
+		// injectivity: within one server, no two distinct authenticated users receive the same certified name
+		certified := map[string]string{} // kind + certified name list -> authenticated user
+		injective := func(cs c02Case) {
+			o := cs.obs
+			if !o.issued {
+				return
+			}
+			kind := "x509"
+			if o.ssh {
+				kind = "ssh"
+			}
+			k := kind + "|" + fmt.Sprintf("%q", o.names)
+			if prev, ok := certified[k]; ok && prev != cs.user {
+				hit("names-injective:"+kind, "no two distinct authenticated users ever receive the same certified name",
+					fmt.Sprintf("%s: users %q and %q both received a %s certificate for the name(s) %q", v.name, prev, cs.user, kind, o.names),
+					map[string]interface{}{"configuration": v.name, "user": cs.user, "other_user": prev, "type": c01Types[cs.typ]}, map[string]interface{}{"names": o.names})
+			} else if !ok {
+				certified[k] = cs.user
+			}
+		}
 		record := func(cs c02Case) {
 			judge(cs)
+			injective(cs)
 			cases = append(cases, cs)
 			res.eval(fmt.Sprintf("%d|%s|%s|%d|%d|%v|%v|%d", cs.variant, cs.user, cs.target, cs.typ, cs.key, cs.addGroups, cs.obs.issued, cs.obs.status), cs.obs.issued)
 			if cs.obs.issued {
@@ -702,7 +767,17 @@ func TestVerif_C02(t *testing.T) {
 		}
 		// ---- own name: every key type and certificate type for the first names, a rotating
 		// choice for the rest
+		// the failing-template family: its own names, SSH on two key types and one X.509 request each
+		for _, name := range v.names {
+			for _, tk := range [][2]int{{0, 0}, {0, 3}, {1, 3}} {
+				o := issue(name, name, tk[0], tk[1], false, "cookie")
+				record(c02Case{variant: vi, user: name, target: name, typ: tk[0], key: tk[1], obs: o})
+			}
+		}
 		for ni, name := range names {
+			if v.names != nil {
+				break
+			}
 			if v.light && ni >= 2 && !(verifThorough() && ni < 6) {
 				continue
 			}
@@ -737,7 +812,7 @@ func TestVerif_C02(t *testing.T) {
 			return l
 		}
 		for _, u := range []string{"alice", "a.b-c+d_e", "jürgen", "Alice"} {
-			if v.light {
+			if v.light || v.names != nil {
 				break
 			}
 			for oi, tgt := range others(u) {
@@ -851,7 +926,10 @@ func TestVerif_C02(t *testing.T) {
 		idx.WriteString(fmt.Sprintf("%d\tconfiguration=%s user=%q url=%q type=%s key=%s addGroups=%v -> status=%d issued=%v names=%q key#%d signer=%d exts=%q orgs=%q groups=%q krb=%q\n",
 			i, v.name, cs.user, cs.target, c01Types[cs.typ], k.name, cs.addGroups, o.status, o.issued, o.names, o.keyIdx, o.signer, o.exts, o.orgs, o.groups, o.krb))
 	}
-	sb.WriteString("].\nDefinition c02_mismatches := Eval vm_compute in mismatches c02_bad cases.\nPrint c02_mismatches.\n")
+	sb.WriteString("].\nDefinition c02_diffv := Eval vm_compute in c02_diffv_from cases 0.\n")
+	sb.WriteString("Definition c02_mismatches := Eval vm_compute in map fst c02_diffv.\nPrint c02_mismatches.\n")
+	// the property's predicate (Model/CertgenObs.v c02_violation) on the OBSERVED answer of every mismatching case
+	sb.WriteString("Definition c02_violating := Eval vm_compute in c02_filter_violating c02_diffv.\nPrint c02_violating.\n")
 	sb.WriteString("Definition c02_ncases := Eval vm_compute in length cases.\nPrint c02_ncases.\n")
 	// logins: session subject = model normalise of the submitted name (ASCII names)
 	sb.WriteString("Definition logins : list (bool * bs * bs) := [")
